@@ -1,7 +1,23 @@
 package agreement
 
 // C03 - Every committed block carries a certificate that authenticates it.
-// (header completed below)
+//
+// Engine E-AGR, same explorations as C01 (see verif_c01_test.go / common_eagr_*_test.go): every
+// ensureAction emitted on every explored transition is checked.
+// Oracle (reference predicate written from the property statement, memoized per distinct
+// certificate+block): Step == cert; round and digest equal the payload's; value != bottom; the REAL
+// Certificate.Authenticate(block, node's ledger, AsyncVoteVerifier) returns nil; and, recomputed
+// independently from the genesis stake table (not from the weights carried in the credentials):
+// voters (plain + equivocation pairs) are distinct online accounts, every vote verifies individually
+// through the real unauthenticatedVote.verify for (round, period, cert, value), and their stake
+// reaches the cert threshold. A panic inside submitTop is a violation.
+//
+// Mutants (bin/mut, quick tier):
+//   DETECTED  bundle.go makeBundle: `packedSoFar += 2 * vote.Cred.Weight` (bundle cut off one vote early).
+//   DETECTED  player.handleMessageEvent (late payload): certificate taken from the freshest bundle of
+//             the vote machine without requiring it to be a certThreshold (a soft/next bundle is
+//             handed to the ledger as certificate when the payload arrives after the quorum).
+// Not covered: as C01.
 
 import (
 	"fmt"
@@ -119,7 +135,11 @@ func TestVerif_C03(t *testing.T) {
 		id: "C03", level: "model_checking",
 		configs: eagrSafetyConfigs(ve.Pick(1, 2)),
 		oracle:  c03Oracle,
-		rule:    "under construction.",
+		rule: "Every ensureAction emitted on every explored transition: certificate is a cert-step bundle for the payload's round and digest, accepted by the real Certificate.Authenticate, with distinct voters whose genesis stake (recounted independently) reaches the cert threshold and whose votes verify individually.",
+		assume: []string{
+			"as C01 (node shell re-implements Service.do/demux/pseudonode; deterministic sortition; decoded structs on the wire)",
+			"stake of every account is 1 microalgo, so the independent weight recount is the number of distinct voters",
+		},
 		finish: func(r *ve.Run, total *eagrStats) {
 			c03Memo.Range(func(k, v any) bool { certs++; return true })
 			r.Set("distinct_certificates_authenticated", certs)
